@@ -21,7 +21,11 @@ RULE = ("domain A: grammars built to be LL(1) as written (alternatives start wit
         "mutations; both smart_factorization settings; productions declared top-down / bottom-up / shuffled; is_ambiguous() is "
         "re-read after all texts were parsed. Non-trivial = grammar has a nullable non-terminal followed by "
         "something and the tested set contains both members and non-members; distinct by (grammar, names)."
-        " Also: FOLLOW-dependency cycles through 2-3 symbols (pattern st_follow_cycle); the parser's description printed before parsing in a quarter of the cases.")
+        " Also: FOLLOW-dependency cycles through 2-3 symbols (pattern st_follow_cycle); the parser's description printed before parsing in a quarter of the cases."
+        " Part any_token_except: three conflict-free shapes built on AnyTokenExcept (a ProdSequence of it in front of ';', two of it in "
+        "front of ';', nested brackets around it), 0-4 excluded terminals out of all 17, skip_tokens left at the default or given explicitly "
+        "(SPACE+COMMENT / SPACE / none / COMMENT / with NUM or WORD and + skipped as well), so that blank and comment tokens are ordinary "
+        "terminals in some configurations; membership by a closed-form rule on the tokens that reach the parser; non-trivial = members and non-members tested.")
 ASSUMPTIONS = [
     "domain F (part of A): hand-shaped LL(1) patterns where exact FOLLOW sets matter (nullable symbol followed by a nullable symbol that has another follower elsewhere), with generated terminals, orders and wrappers",
     "membership oracle = fixpoint chart recogniser over the user grammar (vlib/grammar.py)",
@@ -401,9 +405,156 @@ def st_case(draw):
                 lambda d: st.lists(st.integers(0, 9), min_size=6, max_size=6) if d == "shuffle" else st.just(d)))}
 
 
+# ---------------------------------------------------------------------------
+# AnyTokenExcept under default and explicit skip_tokens
+# ---------------------------------------------------------------------------
+
+ATE_TERMS = ["WORD", "NUM", "+", ",", ";", "(", ")", "[", "]", "{", "}", ":", "IF", "END_KW", "DO", "COMMENT", "SPACE"]
+ATE_LEX = {"WORD": "ab", "NUM": "7", "IF": "if", "END_KW": "end", "DO": "do", "COMMENT": "# c", "SPACE": "  "}
+ATE_SKIPS = [None, ["SPACE", "COMMENT"], ["SPACE"], [], ["SPACE", "COMMENT", "NUM"], ["SPACE", "WORD", "+"], ["COMMENT"]]
+
+
+def ate_text(toks, skip):
+    """text for the token names `toks` and the token string (skipped ones removed) that reaches the parser"""
+    pieces = []
+    arriving = []
+    explicit_space = "SPACE" not in skip
+    for t in toks:
+        lx = ATE_LEX.get(t, t)
+        if pieces and pieces[-1].startswith("#"):
+            pieces.append("\n")                 # a comment runs to the end of its line; the line break is no token
+        elif pieces and not explicit_space:
+            pieces.append(" ")
+        elif pieces and explicit_space and t != "SPACE" and pieces[-1] != ATE_LEX["SPACE"] \
+                and gk.need_space(pieces[-1], lx):
+            pieces.append(ATE_LEX["SPACE"])
+            arriving.append("SPACE")
+        if t == "SPACE" and pieces and pieces[-1] == ATE_LEX["SPACE"]:
+            continue                              # two blanks in a row are one token
+        if t == "SPACE" and not explicit_space:
+            continue
+        pieces.append(lx)
+        if t not in skip:
+            arriving.append(t)
+    return "".join(pieces), arriving
+
+
+def evaluate_ate(case):
+    import ak.llparser as L
+    tokcfg, _names = gk.tok_config(True, True)
+    skip_arg = ATE_SKIPS[case["skip"] % len(ATE_SKIPS)]
+    skip = {"SPACE", "COMMENT"} if skip_arg is None else set(skip_arg)
+    excl = sorted(set(case["excl"]) | {";"})
+    shape = case["shape"]
+    if shape == "nest":
+        excl = sorted(set(excl) | {"(", ")"})
+
+    def make_prods():
+        # template objects belong to one parser: built anew for each
+        if shape == "seq":
+            prods = {"E": [("S", ";")], "S": L.ProdSequence(L.AnyTokenExcept(*excl))}
+        elif shape == "pair":
+            prods = {"E": [("X", "X", ";")], "X": [L.AnyTokenExcept(*excl)]}
+        else:
+            # X is a bracketed X or any token except the brackets
+            prods = {"E": [("X", ";")], "X": [("(", "X", ")"), L.AnyTokenExcept(*excl)]}
+        if case.get("bottomup"):
+            prods = {k: prods[k] for k in reversed(list(prods))}
+        return prods
+
+    def member(arr):
+        if not arr or arr[-1] != ";":
+            return False
+        body = arr[:-1]
+        if shape == "seq":
+            return all(t not in excl for t in body)
+        if shape == "pair":
+            return len(body) == 2 and all(t not in excl for t in body)
+        d = 0
+        while body and body[0] == "(" and body[-1] == ")":
+            body = body[1:-1]
+            d += 1
+        return len(body) == 1 and body[0] not in excl
+    f = []
+    classes = {"shape_" + shape, "skip_tokens_" + ("default" if skip_arg is None else "+".join(skip_arg) or "none")}
+    evals = members = nonmembers = 0
+    for smart in (True, False):
+        try:
+            parser = L.LLParser(gk.TOKENIZER, productions=make_prods(), start_symbol_name="E", smart_factorization=smart,
+                                **({} if skip_arg is None else {"skip_tokens": set(skip_arg)}), **tokcfg)
+        except Exception as e:   # noqa
+            f.append(("constructor_raises_" + type(e).__name__, f"shape={shape} excl={excl!r} skip_tokens={skip_arg!r}: {str(e)[-200:]}"))
+            continue
+        if parser.is_ambiguous():
+            f.append(("ll1_grammar_reported_ambiguous", f"smart_factorization={smart} shape={shape} excl={excl!r} skip_tokens={skip_arg!r}"))
+            continue
+        for toks in case["inputs"]:
+            text, arr = ate_text(toks, skip)
+            kind, res, _st = parse_guarded(L, parser, text, len(arr) + 2, do_cleanup=False)
+            evals += 1
+            m = member(arr)
+            members += m
+            nonmembers += not m
+            ctx = (f"smart_factorization={smart} shape={shape} AnyTokenExcept{tuple(excl)!r} skip_tokens={skip_arg!r} text={text!r} "
+                   f"tokens reaching the parser={arr!r}")
+            if kind == "tree":
+                if not m:
+                    f.append(("non_sentence_accepted", ctx))
+                else:
+                    leaves = []
+
+                    def walk(x):
+                        if isinstance(x.value, list):
+                            for c in x.value:
+                                if c is not None:
+                                    walk(c)
+                        elif x.value is not None or x.name in arr:
+                            leaves.append(x.name)
+                    walk(res)
+                    if leaves != arr:
+                        f.append(("tree_is_not_the_unique_derivation", ctx + f" leaves={leaves!r}"))
+            elif kind == "parsing_error":
+                if m:
+                    f.append(("sentence_rejected", ctx))
+            elif kind == "inconclusive":
+                classes.add("inconclusive_push_budget")
+            elif kind == "diverged":
+                f.append(("parse_diverges", ctx + f": {res}"))
+            else:
+                f.append(("non_sentence_raises_%s" % (type(res).__name__ if kind == "exception" else "LexicalError"),
+                          ctx + f": {res}"))
+            if any(t in ("SPACE", "COMMENT") and t not in skip for t in arr):
+                classes.add("blank_or_comment_token_reaches_the_parser")
+            if len(f) > 3:
+                break
+        if len(f) > 3:
+            break
+    return Outcome(members > 0 and nonmembers > 0, sorted(classes), f[:4], evals=evals)
+
+
+@st.composite
+def st_ate_case(draw):
+    shape = draw(st.sampled_from(["seq", "pair", "nest"]))
+    excl = draw(st.lists(st.sampled_from(ATE_TERMS), max_size=4, unique=True))
+    inputs = []
+    for _ in range(draw(st.integers(4, 10))):
+        body = draw(st.lists(st.sampled_from(ATE_TERMS), max_size=5))
+        if shape == "nest" and draw(st.booleans()):
+            d = draw(st.integers(1, 3))
+            body = ["("] * d + body[:1] + [")"] * d
+        if shape == "pair" and draw(st.booleans()):
+            body = [t for t in body if t != "SPACE"][:2]
+        if draw(st.integers(0, 7)):
+            body = body + [";"]
+        inputs.append(body)
+    return {"shape": shape, "excl": excl, "skip": draw(st.integers(0, len(ATE_SKIPS) - 1)), "inputs": inputs,
+            "bottomup": draw(st.booleans())}
+
+
 def parts(tier):
     k = 1 if tier == "quick" else 25
-    return [Part("grammars", evaluate, strategy=st_case, examples=3200 * k)]
+    return [Part("grammars", evaluate, strategy=st_case, examples=3200 * k),
+            Part("any_token_except", evaluate_ate, strategy=st_ate_case, examples=1200 * k)]
 
 
 TECHNIQUE = "differential property-based testing (Hypothesis): parser vs independent chart recogniser and own LL(1) predictive parser; exhaustive enumeration of all short token strings per generated grammar"
